@@ -283,6 +283,151 @@ def rule_shared(program, ctx, prop=P, rid="C02.shared"):
     ctx.ok(rid, reg, f"{len(classes)} index classes checked")
 
 
+def rule_skips(program, ctx, prop=P, rid="C02.skips"):
+    from ..lib import guard_atoms, expand_aliases
+
+    ctx.rule(
+        rid,
+        "LMDB planner: a filter of the REQ is dropped (`continue`) only for an audited reason - it is not a usable NostrQuery, one of its lists is empty, a tag has no "
+        "values, or it would need an unbounded created_at scan; and the plan appended for a filter is a QueryPlan *constructed in this iteration* from this filter's "
+        "items and limit (a plan looked up in a cache / deduplicated against an earlier filter carries another filter's limit)",
+        floor=3,
+    )
+    fn = program.func("nostr_relay.storage.kv:planner")
+    loop = next((l for l in walk_no_nested(fn) if isinstance(l, ast.For) and "filters" in ast.unparse(l.iter)), None)
+    if loop is None:
+        raise AnalysisError("planner: filter loop not found")
+    qv = loop.target.id if isinstance(loop.target, ast.Name) else "query"
+    inv = {qv}
+
+    # names that hold (parts of) this filter: bound from an expression over the query, or loop variables over such a value
+    derived = {qv}
+    changed = True
+    while changed:
+        changed = False
+        for st in ast.walk(loop):
+            tg, src = None, None
+            if isinstance(st, ast.Assign) and len(st.targets) == 1:
+                tg, src = st.targets[0], st.value
+            elif isinstance(st, ast.For):
+                tg, src = st.target, st.iter
+            if tg is None:
+                continue
+            if any(isinstance(n, ast.Name) and n.id in derived for n in ast.walk(src)) and not any(isinstance(c, ast.Call) and isinstance(c.func, ast.Attribute) and c.func.attr in ("get", "pop") and not any(isinstance(n, ast.Name) and n.id in derived for n in ast.walk(c.func.value)) for c in ast.walk(src)):
+                for n in ast.walk(tg):
+                    if isinstance(n, ast.Name) and n.id not in derived:
+                        derived.add(n.id)
+                        changed = True
+
+    def sentinel_ok(name, seen=()):
+        """a flag / result variable: every store of a constant (True/False/None) to it - directly or through a copy - happens under audited reasons"""
+        if name in seen:
+            return True
+        sts = [s_ for s_ in ast.walk(loop) if isinstance(s_, ast.Assign) and any(dotted(t) == name for t in s_.targets)]
+        if not sts:
+            return False
+        marks = 0
+        for s_ in sts:
+            v = s_.value
+            if isinstance(v, ast.Constant) and (v.value is None or v.value is True):
+                marks += 1
+                at = [(x, p_) for x, p_ in guard_atoms(s_, stop=loop) if name not in {n.id for n in ast.walk(x) if isinstance(n, ast.Name)}]
+                if not at or not all(reason_ok(x) for x, _ in at):
+                    return False
+            elif isinstance(v, ast.Constant):
+                continue
+            elif isinstance(v, ast.Name):
+                if not (v.id in derived or sentinel_ok(v.id, seen + (name,)) or not any(isinstance(s2, ast.Assign) and isinstance(s2.value, ast.Constant) and any(dotted(t) == v.id for t in s2.targets) for s2 in ast.walk(loop))):
+                    return False
+                marks += 1 if sentinel_marks(v.id) else 0
+            else:
+                continue
+        return marks > 0
+
+    def sentinel_marks(name):
+        return any(isinstance(s2, ast.Assign) and isinstance(s2.value, ast.Constant) and any(dotted(t) == name for t in s2.targets) for s2 in ast.walk(loop))
+
+    def reason_ok(e):
+        txt = ast.unparse(e)
+        names = {n.id for n in ast.walk(e) if isinstance(n, ast.Name)}
+        if txt in (qv, f"{qv} is None") or txt.startswith(f"isinstance({qv},"):
+            return True
+        # emptiness of a value built from this filter's own fields (ids, kinds, authors, a tag's values)
+        if isinstance(e, ast.Name):
+            return e.id in derived or sentinel_ok(e.id)
+        if isinstance(e, ast.Compare) and "None" in txt:
+            return names <= derived or all(n in derived or sentinel_ok(n) for n in names)
+        if "best_index is INDEXES['created_at']" in txt or (f"{qv}.since" in txt or f"{qv}.until" in txt):
+            return True
+        if isinstance(e, ast.BoolOp):
+            return all(reason_ok(v) for v in e.values)
+        if isinstance(e, ast.UnaryOp):
+            return reason_ok(e.operand)
+        if isinstance(e, ast.Compare) and len(e.ops) == 1 and isinstance(e.ops[0], (ast.In, ast.NotIn)):
+            return False  # membership in something remembered across filters / requests
+        if isinstance(e, ast.Call):
+            return call_name(e) in ("isinstance", "len", "bool")
+        return not (names - inv - {"log", "default_limit"}) or isinstance(e, ast.Attribute)
+
+    n = 0
+    for c in ast.walk(loop):
+        if isinstance(c, ast.Continue):
+            n += 1
+            atoms = guard_atoms(c, stop=loop)
+            bad = [(e, pol) for e, pol in atoms if not reason_ok(e)]
+            if bad:
+                e, pol = bad[0]
+                ctx.bad(finding_at(prop, rid, c, f"a filter is skipped when `{'' if pol else 'not '}{ast.unparse(e)[:60]}`: that is not a reason for which the filter matches nothing - its matching events "
+                                   "(e.g. those beyond an earlier, smaller limit of an otherwise identical filter) are never delivered"))
+            else:
+                ctx.ok(rid, c, f"skip reason: {[('' if pol else 'not ') + ast.unparse(e)[:30] for e, pol in atoms][-2:]}")
+    # provenance of appended plans
+    for c in ast.walk(loop):
+        if isinstance(c, ast.Call) and isinstance(c.func, ast.Attribute) and c.func.attr == "append" and dotted(c.func.value) == "plans" and c.args:
+            a = c.args[0]
+            n += 1
+            if isinstance(a, ast.Name) and a.id == qv:
+                ctx.ok(rid, c, "a ready-made QueryPlan handed in by an internal caller")
+                continue
+            srcs = [a] if not isinstance(a, ast.Name) else [s_.value for s_ in stores_of(fn, a.id) if isinstance(s_, ast.Assign)]
+            if srcs and all(isinstance(v, ast.Call) and call_name(v) == "QueryPlan" for v in srcs):
+                ctx.ok(rid, c, "plan constructed in this iteration")
+            else:
+                badv = next((v for v in srcs if not (isinstance(v, ast.Call) and call_name(v) == "QueryPlan")), a)
+                ctx.bad(finding_at(prop, rid, c, f"the plan appended for a filter can come from `{ast.unparse(badv)[:60]}`, not from a QueryPlan(...) built for this filter: a remembered plan "
+                                   "carries the limit (and default_limit) of whoever created it first"))
+    if not n:
+        raise AnalysisError("planner: no continue/append sites")
+
+
+def rule_tagrows(program, ctx, prop=P, rid="C02.tagrows"):
+    ctx.rule(
+        rid,
+        "who-may-delete: rows of the `tags` table (what every '#x' filter is answered from) disappear only together with their event (ON DELETE CASCADE) - an explicit "
+        "DELETE on the tags table must carry the same author constraint as the DELETE on events, otherwise anybody's kind-5 strips the tag rows of a foreign event, "
+        "which then no longer matches any tag filter",
+        floor=1,
+    )
+    m = program.module("nostr_relay.storage.db")
+    n = 0
+    for c in ast.walk(m.tree):
+        txt = ast.unparse(c) if isinstance(c, ast.Call) else ""
+        if isinstance(c, ast.Call) and ((call_name(c) in ("sa.delete", "delete") and c.args and "Tag" in ast.unparse(c.args[0])) or (isinstance(c.func, ast.Attribute) and c.func.attr == "delete" and "Tag" in ast.unparse(c.func.value))):
+            n += 1
+            stmt = enclosing_stmt(c)
+            whole = ast.unparse(stmt)
+            if "pubkey" in whole or "event.id_bytes" in whole:
+                ctx.ok(rid, c, "explicit tag-row delete constrained by author / own id")
+            else:
+                ctx.bad(finding_at(prop, rid, c, "tag rows are deleted by id without the author constraint of the event DELETE next to it: a deletion request by another pubkey leaves the "
+                                   "event stored but removes its tag rows - tag filters no longer return it"))
+        if isinstance(c, ast.Constant) and isinstance(c.value, str) and re.search(r"DELETE\s+FROM\s+tags", c.value, re.I):
+            n += 1
+            ctx.bad(finding_at(prop, rid, c, "raw DELETE FROM tags"))
+    if not n:
+        ctx.ok(rid, m.tree, "no explicit DELETE on the tags table (cascade only)")
+
+
 def run(program, ctx):
     from ..lib import rule_awaited
 
@@ -309,6 +454,8 @@ def run(program, ctx):
     rule_authors(program, ctx)
     rule_layout(program, ctx)
     rule_plans(program, ctx)
+    rule_skips(program, ctx)
+    rule_tagrows(program, ctx)
     rule_shared(program, ctx)
     # the filter model normalises ids/authors (hex, lower case) *before* it dedupes and sorts them - the LMDB scanner relies on a
     # deduplicated, descending list of normalised ids; the hand serializer must not fail on a stored event (the sender task drops it silently)
